@@ -680,9 +680,9 @@ req0_ctx_cancel_send(nni_aio *aio, void *arg, nng_err rv)
 
 	nni_mtx_lock(&s->mtx);
 	if (ctx->send_aio == aio) {
-		// There should not be a pending reply, because we canceled
-		// it while we were waiting.
-		NNI_ASSERT(ctx->recv_aio == NULL);
+		// Note that a receive may already be pending: some users
+		// start receiving before the send completes (see
+		// req0_ctx_cancel_recv).
 		ctx->send_aio = NULL;
 		// Restore the message back to the aio.
 		nni_aio_set_msg(aio, ctx->req_msg);
